@@ -12,6 +12,7 @@ package main
 import (
 	"context"
 	"fmt"
+	"github.com/TarsCloud/TarsGo/tars"
 	"math/rand"
 	"sort"
 	"strings"
@@ -231,6 +232,9 @@ func (r *responder) flusher(srvs []*netlab.ScriptServer, stop chan struct{}) {
 	}
 }
 
+// batchApp, when set, is the application instance the batch's proxies live on (nil: a fresh one).
+var batchApp *tars.VerifApp
+
 // twoComms: callers alternate between two communicators that hold proxies for the same object.
 var twoComms bool
 
@@ -245,7 +249,7 @@ func runBatch(sc script, callers, perCaller, endpoints int, timeoutMs int, seed 
 	}
 	stop := make(chan struct{})
 	go resp.flusher(srvs, stop)
-	cl := rpcw.NewDirect(addrs, rpcw.Opt{InvokeTimeoutMs: timeoutMs})
+	cl := rpcw.NewDirect(addrs, rpcw.Opt{InvokeTimeoutMs: timeoutMs, App: batchApp})
 	cls := []*rpcw.Client{cl}
 	if twoComms {
 		cls = append(cls, cl.Sibling())
@@ -535,6 +539,21 @@ func main() {
 				}
 			}
 		}
+	}
+	// observing client filters registered (legacy pre/post kind, pass-through: they return nil): an
+	// unanswered call must still end in a timeout error, not in a "successful" empty response
+	for _, si := range []int{6, 8} {
+		fa := tars.VerifNewApp()
+		fa.RegisterPreClientFilter(func(ctx context.Context, msg *tars.Message, invoke tars.Invoke, timeout time.Duration) error {
+			return nil
+		})
+		fa.RegisterPostClientFilter(func(ctx context.Context, msg *tars.Message, invoke tars.Invoke, timeout time.Duration) error {
+			return nil
+		})
+		batchApp = fa
+		seed++
+		runBatch(scripts[si], 4, run.Pick(20, 100), 1, 400, seed, 0)
+		batchApp = nil
 	}
 	// two communicators with proxies for the same object share the adapters: ids must still be distinct
 	twoComms = true
